@@ -50,6 +50,7 @@ type vReader struct {
 	split   int
 	failAt  int
 	failErr error
+	errWithData bool // the failing Read also returns the bytes in front of the failure point
 }
 
 func (r *vReader) Read(p []byte) (int, error) {
@@ -77,6 +78,9 @@ func (r *vReader) Read(p []byte) (int, error) {
 	}
 	copy(p, r.data[r.pos:r.pos+n])
 	r.pos += n
+	if r.errWithData && r.failAt >= 0 && r.pos >= r.failAt {
+		return n, r.failErr
+	}
 	return n, nil
 }
 
@@ -222,7 +226,7 @@ func VerifSourceError() {
 		X = append(X, c...)
 	}
 	at := zzverif.Choose("fail_at", len(X)+1)
-	out, err := vDecryptStream(d.fk, &vReader{data: X, failAt: at, failErr: errSrc, split: 1})
+	out, err := vDecryptStream(d.fk, &vReader{data: X, failAt: at, failErr: errSrc, split: 1, errWithData: zzverif.Bool("error_together_with_data")})
 	zzverif.Assert(errors.Is(err, errSrc), "source_error_surfaces_on_output")
 	zzverif.Assert(vIsPrefix(out, d.plain), "released_bytes_are_prefix_of_plaintext")
 	zzverif.Cover("source_error_done")
